@@ -1059,6 +1059,14 @@ func CoopCloseBalance(chanType channeldb.ChannelType, isInitiator bool,
 	feePayer fn.Option[lntypes.ChannelParty],
 ) (btcutil.Amount, btcutil.Amount, error) {
 
+	// A closing fee can never be negative. The wire encoding is unsigned,
+	// so a value with the top bit set would otherwise show up here as a
+	// negative amount and *increase* the payer's balance.
+	if coopCloseFee < 0 {
+		return 0, 0, fmt.Errorf("invalid negative coop close fee: %v",
+			int64(coopCloseFee))
+	}
+
 	// We'll make sure we account for the complete balance by adding the
 	// current dangling commitment fee to the balance of the initiator.
 	initiatorDelta := commitFee
